@@ -4,7 +4,7 @@ branches, ring markers, E/Z marks, with bonding descriptors and annotations inse
 computes what the property says must come out (clean text, descriptors by atom index with their
 order, E/Z marks, annotations) independently of the implementation.
 """
-ORGANIC = ['C', 'C', 'C', 'N', 'O', 'S', 'P', 'F', 'Cl', 'Br', 'c', 'c', 'n', 'o', 'B', 'I']
+ORGANIC = ['C', 'C', 'C', 'N', 'O', 'S', 'P', 'F', 'Cl', 'Br', 'c', 'c', 'n', 'o', 'B', 'I', '*']      # ('*': the wildcard atom)
 BRACKET = ['CH2', 'OH', 'NH3+', 'O-', 'nH', 'Na+', 'C@@H', '13CH4', 'Si', 'H', 'CH']
 SYMS = {1: '-', 2: '=', 3: '#', 4: '$', 0: '.', 1.5: ':'}
 
@@ -57,8 +57,8 @@ class Builder:
         if rng.random() < 0.3:
             ent.append('tag=t%d' % self.count)
             exp['tag'] = 't%d' % self.count
-        if ent and ent[0].startswith('x=') and len(ent) > 1 and '=' not in ent[1]:
-            ent = ent[::-1]
+        # positional and keyword entries in any order: a positional entry is the weight wherever it stands
+        rng.shuffle(ent)
         return ent, exp
 
     def atom(self):
